@@ -1,4 +1,5 @@
 SPECIFICATION SpecE
+CONSTANT Kinds = {"cell"}
 INVARIANT Emit
 INVARIANT Agree
 CHECK_DEADLOCK FALSE
